@@ -30,9 +30,8 @@ def obligations(tier):
         for (m, c) in ([(3, 1)] if not th else [(3, 1), (3, 2), (4, 1)]):
             obs.append(Ob(id=f'apply_equals_fit_any_scale/opt{typ}/{m}x{c}', harness='C10/preprocess.c', tus=T, defs={'HP_M': m, 'HP_C': c, 'HP_TYPE': typ, 'HP_MASK': 0, 'HP_CONST': 0, 'HP_APPLYONLY': 1},
                           engine='real', unwind=8, timeout=to, clause='apply(stored) = fit for every value of the scaling statistic (no spread assumption)', stubs=('sym_real_env.c',), real={'nomissing': True}))
-    for off in ('100000.0', '16777216.0', '-3000000.0'):
-        for m in ((2, 3) if not th else (2, 3, 4)):
-            if not th and m == 3 and off == '16777216.0': continue      # measured undecided at 300 s
+    for off in (('16777216.0', '134217728.0') if not th else ('16777216.0', '-50331648.0', '134217728.0')):
+        for m in ((2,) if not th else (2, 3)):
             obs.append(Ob(id=f'ieee_offset/sdev/n{m}/off{off}', harness='C10/ieee_offset.c', tus=T, defs={'HP_M': m, 'HP_OFFSET': off, 'HP_PRE': 0}, engine='bits', unwind=8, timeout=300 if not th else 1800,
                           clause='column spread statistic in IEEE arithmetic on offset data', stubs=('sym_bits_env.c', 'sym_sqrt_axioms_bits.c'), object_bits=10))
     for (m, c) in [(2, 2), (3, 1)]:
